@@ -193,12 +193,7 @@ func runTLSScenario(rec *recorder, id string, events []tlsEvent, cas map[string]
 					ptrs[tc] = fmt.Sprintf("p%d", len(ptrs)+1)
 				}
 				p = ptrs[tc]
-			} else {
-				p = fmt.Sprintf("nil%d", len(loaded)) // no TLS configuration at all: nothing to share
-				if e.CA == "none" && e.Skip == "absent" {
-					p = "nil"
-				}
-			}
+			} // (no TLS configuration at all - the client's default applies - is "nil": nothing to share, nothing to compare)
 			kept, kerr := inthttp.NewHTTPClient(c, pool, nil)
 			if kerr != nil {
 				return fmt.Errorf("%s: NewHTTPClient: %w", id, kerr)
@@ -279,7 +274,7 @@ func runTLSScenario(rec *recorder, id string, events []tlsEvent, cas map[string]
 			}
 			dirty = false
 		}
-		alive := 0
+		alive := 0 // (a pool whose private structure the probe does not recognise reports 0: the watcher-count rule then never fires)
 		for _, n := range internal.VerifAliveWatchers(pool) {
 			alive += n
 		}
